@@ -18,6 +18,47 @@
 using vh::json;
 using vh::Tracked;
 
+#ifdef VH_CONTRACT
+    #include <csetjmp>
+    #include <functional>
+    #include <sys/wait.h>
+    #include <unistd.h>
+// Contract mode (property C05): the library is built with TETL_ENABLE_CONTRACT_CHECKS[_SAFE] and
+// TETL_ENABLE_CUSTOM_ASSERT_HANDLER. The handler records location + a snapshot of both objects taken
+// *inside* the handler. Violating calls run in a forked child (the handler never returns).
+namespace vhc {
+inline int child_fd = -1;                 // >= 0: we are the forked child of a violating call
+inline std::function<json()> snapshot;    // projection of the current objects
+inline sigjmp_buf jb;
+inline bool armed = false;                // parent: a (valid) call is in flight
+inline json fired;                        // parent: what the handler saw
+[[noreturn]] inline void on_assert(char const* file, int line, char const* expr)
+{
+    json j;
+    j["hfile"] = file ? std::string(file).substr(std::string(file).find("include/etl") == std::string::npos ? 0 : std::string(file).find("include/etl")) : std::string("");
+    j["hline"] = line;
+    j["hexpr"] = expr ? expr : "";
+    j["snap"]  = snapshot ? snapshot() : json();
+    if (child_fd >= 0) {
+        std::string s = j.dump();
+        (void)!::write(child_fd, s.data(), s.size());
+        ::_exit(42);
+    }
+    fired = j;
+    if (armed) { siglongjmp(jb, 1); }
+    std::fprintf(stderr, "assert handler fired outside a call: %s:%d\n", file, line);
+    ::_exit(3);
+}
+} // namespace vhc
+namespace etl {
+template <typename Assertion>
+[[noreturn]] auto assert_handler(Assertion const& msg) -> void
+{
+    vhc::on_assert(msg.file, msg.line, msg.expression);
+}
+} // namespace etl
+#endif
+
 #ifndef VH_CAPS
     #define VH_CAPS 0, 1, 2, 3
 #endif
@@ -62,10 +103,18 @@ struct Runner {
     explicit Runner(std::string name) : inst(std::move(name))
     {
         for (int i = 0; i < 2; ++i) { ob[i] = new (store[i]) V(); }
+#ifdef VH_CONTRACT
+        vhc::snapshot = [this] { return state(); };
+#endif
     }
     ~Runner()
     {
-        for (int i = 0; i < 2; ++i) { ob[i]->~V(); }
+        if (!dirty) {
+            for (int i = 0; i < 2; ++i) { ob[i]->~V(); }
+        }
+#ifdef VH_CONTRACT
+        vhc::snapshot = nullptr;
+#endif
     }
 
     static int oi(std::string const& o) { return o == "a" ? 0 : 1; }
@@ -188,6 +237,7 @@ struct Runner {
             else if (op == "push_back_mv") { v.push(std::move(val)); }
             else if (op == "emplace_back") { v.emplace(vi); }
             else if (op == "pop_back") { v.pop(); }
+            else if (op == "back") { ret = vh::val_of(v.top()); }
             else if (op == "swap") { v.swap(src); }
             else if (op == "fswap") { swap(v, src); }
             else if (op == "copy_assign") {
@@ -205,21 +255,22 @@ struct Runner {
                 new (&v) V(c);
             } else { ok = false; }
         } else {
+            constexpr bool CC = std::is_copy_constructible_v<T>; // members taking T const& need it in their bodies
             auto idxof = [&](auto* ptr) -> long { return ptr == nullptr ? -1 : (long)(ptr - v.data()); };
             if (op == "push_back") {
-                if constexpr (requires { v.push_back(val); }) { v.push_back(val); } else { ok = false; }
+                if constexpr (CC) { if constexpr (requires { v.push_back(val); }) { v.push_back(val); } else { ok = false; } } else { ok = false; }
             } else if (op == "push_back_mv") {
                 if constexpr (requires { v.push_back(std::move(val)); }) { v.push_back(std::move(val)); } else { ok = false; }
             } else if (op == "emplace_back") {
                 if constexpr (requires { v.emplace_back(vi); }) { v.emplace_back(vi); } else { ok = false; }
             } else if (op == "unchecked_push_back") {
-                if constexpr (requires { v.unchecked_push_back(val); }) { ret = idxof(&v.unchecked_push_back(val)); } else { ok = false; }
+                if constexpr (CC) { if constexpr (requires { v.unchecked_push_back(val); }) { ret = idxof(&v.unchecked_push_back(val)); } else { ok = false; } } else { ok = false; }
             } else if (op == "unchecked_push_back_mv") {
                 if constexpr (requires { v.unchecked_push_back(std::move(val)); }) { ret = idxof(&v.unchecked_push_back(std::move(val))); } else { ok = false; }
             } else if (op == "unchecked_emplace_back") {
                 if constexpr (requires { v.unchecked_emplace_back(vi); }) { ret = idxof(&v.unchecked_emplace_back(vi)); } else { ok = false; }
             } else if (op == "try_push_back") {
-                if constexpr (requires { v.try_push_back(val); }) { ret = idxof(v.try_push_back(val)); } else { ok = false; }
+                if constexpr (CC) { if constexpr (requires { v.try_push_back(val); }) { ret = idxof(v.try_push_back(val)); } else { ok = false; } } else { ok = false; }
             } else if (op == "try_push_back_mv") {
                 if constexpr (requires { v.try_push_back(std::move(val)); }) { ret = idxof(v.try_push_back(std::move(val))); } else { ok = false; }
             } else if (op == "try_emplace_back") {
@@ -231,15 +282,15 @@ struct Runner {
             } else if (op == "emplace") {
                 if constexpr (requires { v.emplace(v.begin(), vi); }) { auto it = v.emplace(v.begin() + p, vi); ret = it - v.begin(); } else { ok = false; }
             } else if (op == "insert_copy") {
-                if constexpr (requires { v.insert(v.begin(), val); }) { auto it = v.insert(v.begin() + p, val); ret = it - v.begin(); } else { ok = false; }
+                if constexpr (CC) { if constexpr (requires { v.insert(v.begin(), val); }) { auto it = v.insert(v.begin() + p, val); ret = it - v.begin(); } else { ok = false; } } else { ok = false; }
             } else if (op == "insert_move") {
                 if constexpr (requires { v.insert(v.begin(), std::move(val)); }) { auto it = v.insert(v.begin() + p, std::move(val)); ret = it - v.begin(); } else { ok = false; }
             } else if (op == "insert_fill") {
-                if constexpr (requires { v.insert(v.begin(), size_t(1), val); }) { auto it = v.insert(v.begin() + p, (size_t)n, val); ret = it - v.begin(); } else { ok = false; }
+                if constexpr (CC) { if constexpr (requires { v.insert(v.begin(), size_t(1), val); }) { auto it = v.insert(v.begin() + p, (size_t)n, val); ret = it - v.begin(); } else { ok = false; } } else { ok = false; }
             } else if (op == "insert_range") {
-                if constexpr (requires { v.insert(v.begin(), xs.data(), xs.data()); }) { auto it = v.insert(v.begin() + p, xs.data(), xs.data() + xs.size()); ret = it - v.begin(); } else { ok = false; }
+                if constexpr (CC) { if constexpr (requires { v.insert(v.begin(), xs.data(), xs.data()); }) { auto it = v.insert(v.begin() + p, xs.data(), xs.data() + xs.size()); ret = it - v.begin(); } else { ok = false; } } else { ok = false; }
             } else if (op == "insert_self") {
-                if constexpr (requires { v.insert(v.begin(), val); }) { auto it = v.insert(v.begin() + p, v[(size_t)q]); ret = it - v.begin(); } else { ok = false; }
+                if constexpr (CC) { if constexpr (requires { v.insert(v.begin(), val); }) { auto it = v.insert(v.begin() + p, v[(size_t)q]); ret = it - v.begin(); } else { ok = false; } } else { ok = false; }
             } else if (op == "erase_pos") {
                 if constexpr (requires { v.erase(v.begin()); }) { auto it = v.erase(v.begin() + p); ret = it - v.begin(); } else { ok = false; }
             } else if (op == "erase_range") {
@@ -247,34 +298,38 @@ struct Runner {
             } else if (op == "resize") {
                 if constexpr (requires { v.resize(size_t(1)); }) { v.resize((size_t)n); } else { ok = false; }
             } else if (op == "resize_val") {
-                if constexpr (requires { v.resize(size_t(1), val); }) { v.resize((size_t)n, val); } else { ok = false; }
+                if constexpr (CC) { if constexpr (requires { v.resize(size_t(1), val); }) { v.resize((size_t)n, val); } else { ok = false; } } else { ok = false; }
             } else if (op == "assign_fill") {
-                if constexpr (requires { v.assign(size_t(1), val); }) { v.assign((size_t)n, val); } else { ok = false; }
+                if constexpr (CC) { if constexpr (requires { v.assign(size_t(1), val); }) { v.assign((size_t)n, val); } else { ok = false; } } else { ok = false; }
             } else if (op == "assign_range") {
-                if constexpr (requires { v.assign(xs.data(), xs.data()); }) { v.assign(xs.data(), xs.data() + xs.size()); } else { ok = false; }
+                if constexpr (CC) { if constexpr (requires { v.assign(xs.data(), xs.data()); }) { v.assign(xs.data(), xs.data() + xs.size()); } else { ok = false; } } else { ok = false; }
             } else if (op == "swap") {
-                if constexpr (requires { v.swap(src); }) { v.swap(src); } else { ok = false; }
+                if constexpr (CC) { if constexpr (requires { v.swap(src); }) { v.swap(src); } else { ok = false; } } else { ok = false; }
             } else if (op == "fswap") {
-                if constexpr (requires { swap(v, src); }) { swap(v, src); } else { ok = false; }
+                if constexpr (CC) { if constexpr (requires { swap(v, src); }) { swap(v, src); } else { ok = false; } } else { ok = false; }
             } else if (op == "copy_assign") {
-                if constexpr (std::is_copy_assignable_v<V>) { v = src; } else { ok = false; }
+                if constexpr (CC) { if constexpr (std::is_copy_assignable_v<V>) { v = src; } else { ok = false; } } else { ok = false; }
             } else if (op == "move_assign") {
-                if constexpr (std::is_move_assignable_v<V>) { v = std::move(src); } else { ok = false; }
+                if constexpr (CC) { if constexpr (std::is_move_assignable_v<V>) { v = std::move(src); } else { ok = false; } } else { ok = false; }
             } else if (op == "ctor_default") {
                 v.~V();
                 new (&v) V();
             } else if (op == "ctor_n") {
                 if constexpr (requires { V(size_t(1)); }) { v.~V(); new (&v) V((size_t)n); } else { ok = false; }
             } else if (op == "ctor_fill") {
-                if constexpr (requires { V(size_t(1), val); }) { v.~V(); new (&v) V((size_t)n, val); } else { ok = false; }
+                if constexpr (CC) { if constexpr (requires { V(size_t(1), val); }) { v.~V(); new (&v) V((size_t)n, val); } else { ok = false; } } else { ok = false; }
             } else if (op == "ctor_range") {
-                if constexpr (requires { V(xs.data(), xs.data()); }) { v.~V(); new (&v) V(xs.data(), xs.data() + xs.size()); } else { ok = false; }
+                if constexpr (CC) { if constexpr (requires { V(xs.data(), xs.data()); }) { v.~V(); new (&v) V(xs.data(), xs.data() + xs.size()); } else { ok = false; } } else { ok = false; }
             } else if (op == "ctor_copy") {
-                v.~V();
-                new (&v) V(src);
+                if constexpr (CC) { if constexpr (std::is_copy_constructible_v<V>) { v.~V(); new (&v) V(src); } else { ok = false; } } else { ok = false; }
             } else if (op == "ctor_move") {
-                v.~V();
-                new (&v) V(std::move(src));
+                if constexpr (std::is_move_constructible_v<V>) { v.~V(); new (&v) V(std::move(src)); } else { ok = false; }
+            } else if (op == "at") {
+                ret = vh::val_of(v[(size_t)p]);
+            } else if (op == "front") {
+                ret = vh::val_of(v.front());
+            } else if (op == "back") {
+                ret = vh::val_of(v.back());
             } else if (op == "erase_val") {
                 if constexpr (requires { erase(v, val); }) { ret = (long)erase(v, val); } else { ok = false; }
             } else if (op == "erase_if_odd") {
@@ -314,7 +369,29 @@ struct Runner {
             cap_before[1]  = ob[1]->capacity();
         }
         long ret  = 0;
+#ifdef VH_CONTRACT
+        ev["outcome"] = "returned";
+        vhc::armed    = true;
+        if (sigsetjmp(vhc::jb, 1) != 0) {
+            // the handler fired during a call the script considers valid
+            vhc::armed    = false;
+            vh::life().end_window();
+            ev["outcome"] = "handler";
+            ev["hline"]   = vhc::fired["hline"];
+            ev["hfile"]   = vhc::fired["hfile"];
+            ev["hexpr"]   = vhc::fired["hexpr"];
+            ev["inst"]    = inst;
+            vh::emit(ev);
+            ++nev;
+            broken = true;
+            dirty  = true;
+            return;
+        }
+#endif
         bool ok   = apply(op, oi(o), x, ret);
+#ifdef VH_CONTRACT
+        vhc::armed = false;
+#endif
         if (!ok) {
             ++nskip;
             broken = true;
@@ -348,13 +425,78 @@ struct Runner {
         ++nev;
     }
 
+    bool dirty = false; // an aborted call left the objects in an unknown state: do not destroy them
     void reset()
     {
         for (int i = 0; i < 2; ++i) {
-            ob[i]->~V();
+            if (!dirty) { ob[i]->~V(); }
             ob[i] = new (store[i]) V();
         }
+        dirty = false;
     }
+#ifdef VH_CONTRACT
+    // a call that violates a documented precondition: run it in a child, report what happened
+    void bad_step(std::string const& op, std::string const& o, json const& x)
+    {
+        json ev;
+        ev["op"]   = op;
+        ev["o"]    = o;
+        ev["x"]    = x;
+        ev["cap"]  = (long)N;
+        ev["pre"]  = state();
+        ev["inst"] = inst;
+        int fds[2];
+        if (::pipe(fds) != 0) { std::exit(2); }
+        std::cout.flush();
+        pid_t pid = ::fork();
+        if (pid == 0) {
+            ::close(fds[0]);
+            vhc::child_fd = fds[1];
+            long ret      = 0;
+            bool ok       = apply(op, oi(o), x, ret);
+            json j;
+            j["outcome"] = ok ? "returned" : "unsupported";
+            j["snap"]    = state();
+            std::string s = j.dump();
+            (void)!::write(fds[1], s.data(), s.size());
+            ::_exit(0);
+        }
+        ::close(fds[1]);
+        std::string buf;
+        char tmp[4096];
+        ssize_t k;
+        while ((k = ::read(fds[0], tmp, sizeof tmp)) > 0) { buf.append(tmp, (size_t)k); }
+        ::close(fds[0]);
+        int status = 0;
+        ::waitpid(pid, &status, 0);
+        json j = buf.empty() ? json() : json::parse(buf, nullptr, false);
+        if (WIFEXITED(status) && WEXITSTATUS(status) == 42 && j.is_object()) {
+            ev["outcome"] = "handler";
+            ev["hline"]   = j["hline"];
+            ev["hfile"]   = j["hfile"];
+            ev["hexpr"]   = j["hexpr"];
+            ev["snap"]    = j["snap"];
+        } else if (WIFEXITED(status) && WEXITSTATUS(status) == 0 && j.is_object()) {
+            if (j["outcome"] == "unsupported") {
+                ++nskip;
+                if (unsupported_seen.insert(op).second) { std::fprintf(stderr, "UNSUPPORTED %s %s\n", inst.c_str(), op.c_str()); }
+                return;
+            }
+            ev["outcome"] = "returned";
+            ev["hline"]   = 0;
+            ev["hfile"]   = "";
+            ev["snap"]    = j["snap"];
+        } else {
+            ev["outcome"] = "trap";
+            ev["hline"]   = 0;
+            ev["hfile"]   = "";
+            ev["snap"]    = ev["pre"];
+            ev["status"]  = status;
+        }
+        vh::emit(ev);
+        ++nev;
+    }
+#endif
 
     // ---- script replay ----
     void replay(std::vector<json> const& script)
@@ -367,6 +509,12 @@ struct Runner {
             }
             if (broken) { continue; } // an earlier call of this script is not provided: the state is not the planned one
             if (ln.contains("cap") && ln["cap"].get<long>() != (long)N) { continue; }
+#ifdef VH_CONTRACT
+            if (ln.value("bad", false)) {
+                bad_step(ln["op"].get<std::string>(), ln["o"].get<std::string>(), ln["x"]);
+                continue;
+            }
+#endif
             step(ln["op"].get<std::string>(), ln["o"].get<std::string>(), ln["x"]);
         }
     }
@@ -383,14 +531,14 @@ struct Runner {
                "insert_fill", "insert_range", "insert_self", "erase_pos", "erase_range", "clear", "resize",
                "resize_val", "assign_fill", "assign_range", "swap", "fswap", "copy_assign", "move_assign",
                "ctor_default", "ctor_n", "ctor_fill", "ctor_range", "ctor_copy", "ctor_move", "erase_val",
-               "erase_if_odd"};
+               "erase_if_odd", "at", "front", "back"};
         static std::vector<std::string> const ipvops
             = {"try_push_back", "try_push_back_mv", "try_emplace_back", "unchecked_push_back",
                "unchecked_push_back_mv", "unchecked_emplace_back", "pop_back", "clear", "ctor_default",
-               "ctor_copy", "ctor_move"};
+               "ctor_copy", "ctor_move", "at", "front", "back"};
         static std::vector<std::string> const stops
             = {"push_back", "push_back_mv", "emplace_back", "pop_back", "swap", "fswap", "copy_assign",
-               "move_assign", "ctor_default", "ctor_copy", "ctor_move", "ctor_range"};
+               "move_assign", "ctor_default", "ctor_copy", "ctor_move", "ctor_range", "back"};
         auto const& ops = kind == Kind::sv ? svops : kind == Kind::ipv ? ipvops : stops;
         reset();
         // bias: alternate between growing and shrinking phases so that both empty and full are visited
@@ -414,7 +562,8 @@ struct Runner {
             // make the arguments valid for the current state
             bool needroom = isgrow(op) && op.rfind("try_", 0) != 0;
             if (needroom && room == 0) { continue; }
-            if ((op == "pop_back" || op == "erase_pos" || op == "insert_self") && sz == 0) { continue; }
+            if ((op == "pop_back" || op == "erase_pos" || op == "insert_self" || op == "at" || op == "front" || op == "back") && sz == 0) { continue; }
+            if (op == "at") { x["p"] = rng.range(0, sz - 1); }
             if (op == "emplace" || op == "insert_copy" || op == "insert_move") { x["p"] = rng.range(0, sz); }
             if (op == "insert_fill") {
                 x["p"] = rng.range(0, sz);
@@ -469,19 +618,24 @@ struct Args {
 template <typename V, typename T, size_t N>
 int run_one(Args const& a, Kind k)
 {
-    Runner<V, T, N> r(a.kind + "_" + a.elem + "_" + std::to_string(N));
     long before = vh::live_count();
+    std::string inst = a.kind + "_" + a.elem + "_" + std::to_string(N);
+    long nev = 0, nskip = 0;
     {
+        Runner<V, T, N> r(inst);
         if (a.mode == "replay") {
             r.replay(vh::read_ndjson(a.script));
         } else {
             vh::Rng rng(a.seed * 1000003ull + N * 7919ull + (uint64_t)k * 31ull + (vh::is_tracked<T> ? 17 : 0));
             r.random_history(rng, a.steps, k, (int)a.nvals);
         }
-        r.reset();
+        nev   = r.nev;
+        nskip = r.nskip;
     }
-    std::fprintf(stderr, "SUMMARY inst=%s events=%ld unsupported=%ld live_delta=%ld\n", r.inst.c_str(), r.nev,
-        r.nskip, vh::live_count() - before);
+    // both owners are destroyed now: nothing they ever constructed may still be alive
+    vh::emit(json{{"op", "owner_end"}, {"inst", inst}, {"live", vh::live_count() - before}});
+    std::fprintf(stderr, "SUMMARY inst=%s events=%ld unsupported=%ld live_delta=%ld\n", inst.c_str(), nev, nskip,
+        vh::live_count() - before);
     return 0;
 }
 
@@ -491,7 +645,9 @@ int run_kind(Args const& a)
     using TT = Types<T, N>;
     if (a.kind == "sv") { return run_one<typename TT::sv, T, N>(a, Kind::sv); }
     if (a.kind == "stack") {
-        if constexpr (N > 0) { return run_one<typename TT::stack, T, N>(a, Kind::stack); }
+        if constexpr (N > 0 && std::is_copy_constructible_v<T> && std::is_move_constructible_v<T>) {
+            return run_one<typename TT::stack, T, N>(a, Kind::stack);
+        }
         return 0;
     }
 #ifndef VH_STD
@@ -510,7 +666,13 @@ int dispatch(Args const& a, std::index_sequence<Ns...>)
         constexpr size_t N = decltype(nc)::value;
         if ((long)N != a.cap) { return; }
         found = true;
-        rc    = a.elem == "int" ? run_kind<int, N>(a) : run_kind<Tracked, N>(a);
+        if (a.elem == "int") { rc = run_kind<int, N>(a); }
+        else if (a.elem == "trk") { rc = run_kind<Tracked, N>(a); }
+#ifndef VH_NO_MOCO
+        else if (a.elem == "mo") { rc = run_kind<vh::TrackedMO, N>(a); }
+        else if (a.elem == "co") { rc = run_kind<vh::TrackedCO, N>(a); }
+#endif
+        else { std::fprintf(stderr, "unknown element kind %s\n", a.elem.c_str()); }
     };
     (one(std::integral_constant<size_t, Ns>{}), ...);
     if (!found) { std::fprintf(stderr, "capacity %ld not compiled in\n", a.cap); }
